@@ -64,6 +64,18 @@ type wop struct {
 	rejected bool // set by the writer when the filter rejected this call
 }
 
+// arguments that are not IPv4 networks: rejected with the sentinel, and a rejected call changes nothing
+var junkNets = []*net.IPNet{
+	{IP: net.ParseIP("::"), Mask: net.CIDRMask(0, 128)},
+	{IP: net.IP{10, 0, 0, 0}, Mask: net.IPMask{255, 0, 255, 0}},
+	{IP: net.ParseIP("2001:db8::"), Mask: net.CIDRMask(32, 128)},
+	{IP: net.IP{10, 0, 0, 0}, Mask: nil},
+	{IP: net.IP{10, 0, 0}, Mask: net.CIDRMask(8, 32)},
+	{IP: net.IP{0, 0, 0, 0}, Mask: net.IPMask{}},
+}
+
+var junkCalls atomic.Int64
+
 func ipnetWide(p prefix) *net.IPNet {
 	return &net.IPNet{IP: net.IPv4(byte(p.net>>24), byte(p.net>>16), byte(p.net>>8), byte(p.net)), Mask: net.CIDRMask(p.ones, 32)}
 }
@@ -224,6 +236,19 @@ func run(sc *scenario) (string, outcome) {
 					redundant := h.present.Load() == o.add
 					if !redundant {
 						h.seq.Add(1) // odd: an update of this range is in flight
+					}
+					if (k+wi*7)%13 == 5 {
+						// now and then a writer passes something that is not an IPv4 network (an entry of a mixed allow-list):
+						// rejected, and nothing changes - the readers go on judging every range as before (round twenty-two)
+						j := junkNets[(k/13+wi)%len(junkNets)]
+						jerr := f.Remove(j)
+						if (k/13)%2 == 0 {
+							jerr = f.Add(j)
+						}
+						junkCalls.Add(1)
+						if !errors.Is(jerr, netutil.ErrInvalidIPv4CIDR) {
+							report(fmt.Sprintf("writer %d: a call with %v (not an IPv4 network) returned %v, want ErrInvalidIPv4CIDR", wi, j, jerr))
+						}
 					}
 					n := ipnet(o.p)
 					if o.wide {
@@ -422,6 +447,7 @@ func TestScenarios(t *testing.T) {
 			ev.Label("switch_while_readers_active")
 		}
 		ev.LabelN("reader_iterations", oc.readerIters)
+		ev.LabelN("writer_calls_with_arguments_that_are_not_IPv4_networks", junkCalls.Swap(0))
 		ev.LabelN("stable_range_lookups", oc.stableChecks)
 		ev.Case(oc.switchedDuringReads, ev.Hash(sc.render(), fmt.Sprint(oc.readerIters)), sc.render)
 	})
